@@ -30,7 +30,32 @@ ASSUMPTIONS = [
 
 # 0.49951171875 = 1/2 - 2^-11: a response that arrives less than a millisecond before the next request of a 2 ops/s client is due
 SVC = [0.0625, 0.5, 1.0, 3.0, 0.49951171875]
-THROUGHPUTS = [None, 1, 2, 10, "20 docs/s", ("interval", 0.5)]
+# ("custom", x): a user-defined (non-simple) scheduler that paces by its own task parameter, without target-throughput / target-interval
+THROUGHPUTS = [None, 1, 2, 10, "20 docs/s", ("interval", 0.5), ("custom", 0.5)]
+
+
+def register_custom_scheduler():
+    from esrally.driver import scheduler
+
+    class VerifScheduler(scheduler.Scheduler):
+        """one request every `verif-interval` seconds per client; takes feedback hooks, so Rally treats it as a non-simple scheduler"""
+
+        def __init__(self, task):
+            self.interval = float(task.params["verif-interval"])
+
+        def before_request(self, now):
+            pass
+
+        def after_request(self, now, weight, unit, request_meta_data):
+            pass
+
+        def next(self, current):
+            return current + self.interval
+
+    try:
+        scheduler.register_scheduler("verif-sched", VerifScheduler)
+    except Exception:  # noqa -- already registered in this process
+        pass
 ERRORS = ["none", "api-2nd", "api-1st", "unsuccessful-2nd", "timeout-2nd"]
 N_ITER = 4
 TOL = 1e-9
@@ -56,7 +81,12 @@ def configs(tier):
 def build(cfg):
     clients, thr, word, (weight, unit), err, (pre, post), wire = cfg
     tparams = {}
-    if isinstance(thr, tuple):
+    task_kw = {}
+    if isinstance(thr, tuple) and thr[0] == "custom":
+        register_custom_scheduler()
+        tparams["verif-interval"] = thr[1]
+        task_kw["schedule"] = "verif-sched"
+    elif isinstance(thr, tuple):
         tparams["target-interval"] = thr[1]
     elif thr is not None:
         if isinstance(thr, str) and unit != "docs":
@@ -66,7 +96,7 @@ def build(cfg):
     op_params = {"weight": weight, "unit": unit, "pre": pre, "post": post, "wire": wire}
     if err == "unsuccessful-2nd":
         op_params["unsuccessful-at"] = [1]
-    task = loadgen.make_task("t", "t", clients=clients, op_params=op_params, iterations=N_ITER, params=tparams)
+    task = loadgen.make_task("t", "t", clients=clients, op_params=op_params, iterations=N_ITER, params=tparams, **task_kw)
     allocs = [(cid, loadgen.allocation(task, cid)) for cid in range(clients)]
 
     def behaviour(entry):
@@ -126,7 +156,9 @@ def check(cfg, ch, res):
                 # independent reference of the scheduled time (deterministic pacing): k * clients * weight / target, weight counted only
                 # when the target is given in the runner's unit; not defined here when the very first invocation fails (no feedback yet)
                 want_sched = None
-                if thr is not None and err != "api-1st":
+                if isinstance(thr, tuple) and thr[0] == "custom":
+                    want_sched = (k + 1) * thr[1]  # the user-defined scheduler paces every client on its own, starting with next(0)
+                elif thr is not None and err != "api-1st":
                     if isinstance(thr, tuple):
                         rate, tunit = 1.0 / thr[1], "ops/s"
                     elif isinstance(thr, str):
